@@ -57,6 +57,9 @@ def elem_range(ring, p):
 
 def oracle(ring, p, op, a):
     """specification: exact integer arithmetic mod p, canonical representative.  None = no expectation."""
+    op = op.split(":")[0]
+    if op == "consts":
+        return consts_expect(ring, p)
     if op in ("add", "addin"):
         return canon(ring, p, a[0] + a[1])
     if op in ("sub", "subin"):
@@ -190,10 +193,13 @@ NO_MODEL_OPS = {"ru": ("inv", "invin", "div", "divin"),       # RecInt::inv_mod 
                 "zz": ("inv", "invin", "div", "divin", "isUnit")}
 
 
-def model_line(ring, p, op, a):
-    """the line for the extracted-model driver, or None when the call form is not modelled"""
+def model_line(ring, p, op, a, exbr=None, negfix=None):
+    """the line for the extracted-model driver, or None when the call form is not modelled.
+    exbr[ring] = (branch of ModularExtended::mul, of ::reduce) the configuration compiled (0 FMA, 1 Dekker, 2 fallback);
+    negfix[ring]: ModularBalanced::neg normalises (frag/C03.fix-1 applied) -- both as reported by the implementation."""
+    op = op.split(":")[0]                 # the alias pattern does not exist in the model (no object identity)
     args = " ".join(str(x) for x in a)
-    if op in ("mulpb2", "gcdext") and ring not in INT_RINGS:
+    if op == "consts" or (op in ("mulpb2", "gcdext") and ring not in INT_RINGS):
         return None
     if ring in INT_RINGS:
         s, c = ring.split("_")
@@ -203,11 +209,16 @@ def model_line(ring, p, op, a):
     if ring in FM_PREC:
         return "fm %d %d %d %s %s" % (FM_PREC[ring][0], FM_PREC[ring][1], p, op, args)
     if ring in BF_PREC:
+        if (negfix or {}).get(ring) and op in ("neg", "negin"):
+            op = "negn"
         return "bf %d %d %s %s" % (BF_PREC[ring], p, op, args)
     if ring in BI_BITS:
+        if (negfix or {}).get(ring) and op in BAL_NEG_OPS:
+            op = "negn" if op in ("neg", "negin") else "maxpyn"
         return "bi %d %d %s %s" % (BI_BITS[ring], p, op, args)
     if ring in EX_PREC:
-        return "ex %d %d %s %s" % (EX_PREC[ring], p, op, args)
+        mb, rb = (exbr or {}).get(ring, (0, 0))
+        return "xb %d %d %d %d %s %s" % (mb, rb, EX_PREC[ring], p, op, args)
     if ring.startswith("ru"):
         if op in NO_MODEL_OPS["ru"]:
             return None
@@ -229,7 +240,12 @@ def precomp_ok(ring, p, op):
 
 OBTAIN_MODES = {"copy": "copy construction from a ring that is then destroyed",
                 "asg": "assignment over a ring of ANOTHER modulus",
-                "asgd": "assignment over a default-constructed ring"}
+                "asgd": "assignment over a default-constructed ring",
+                "self": "self-assignment F = F",
+                "chain": "two assignments in a row (H -> G -> F, G and F built for other moduli; H and G destroyed before use)",
+                "cpasg": "assignment from a copy-constructed ring over a ring of another modulus"}
+# the three of the first round run the full operation set on several moduli; the later three on the maximum and the minimum
+OBTAIN_MAIN = ("copy", "asg", "asgd")
 
 
 def reduce_operand(ring, p, x):
@@ -258,12 +274,19 @@ def reduce_operand(ring, p, x):
     return x
 
 
-def gen_obtained(rng, ring, p, cases, n_rand):
+def consts_expect(ring, p):
+    """zero one mOne minElement() maxElement() characteristic()"""
+    lo, hi = elem_range(ring, p)
+    return "%d %d %d %d %d %d" % (0, canon(ring, p, 1), canon(ring, p, -1), lo, hi, p)
+
+
+def gen_obtained(rng, ring, p, cases, n_rand, modes=None):
     """the full operation set on boundary operands for a ring object obtained by copy / assignment (every cached field of the
     ring -- _pc, _halfp, _mhalfp, _dinvp, _invp, _negp, _lp, mOne, the Log16 tables -- must have been carried over)"""
     lo, hi = elem_range(ring, p)
-    for mode in OBTAIN_MODES:
+    for mode in (modes or OBTAIN_MODES):
         rm = ring + "@" + mode
+        cases.append((rm, p, "consts", []))
         trip = [[hi, hi, hi], [hi, hi, lo], [lo, hi, 1 if hi >= 1 else 0], [1 if hi >= 1 else 0, hi, hi]] + [operands(rng, ring, p, 3) for _ in range(n_rand)]
         for t in trip:
             for op in OPS3:
@@ -287,6 +310,40 @@ def gen_obtained(rng, ring, p, cases, n_rand):
                 if precomp_ok(ring, p, op):
                     cases.append((rm, p, op, [hi, hi]))
                     cases.append((rm, p, op, [hi, max(0, hi - 1)]))
+
+
+# alias patterns (which arguments of the call are one object; see harness/c03_modular.C apply_op).  Aliased operands carry equal values.
+ALIAS3 = ("ra", "rb", "ab", "rab")           # r, a, b      add sub mul div
+ALIAS4 = ("ra", "rb", "rc", "ab")            # r, a, x, y   axpy axmy maxpy
+ALIASIN2 = ("rb",)                            # r, a         addin subin mulin divin    (r op= r)
+ALIASIN3 = ("ra", "rb")                       # r, a, x      axpyin axmyin maxpyin      (r = r*x + r, r = a*r + r)
+
+
+def gen_alias(rng, ring, p, cases, n_rand):
+    """every operation in every pattern of argument aliasing (the destination being one of the sources, two sources being one
+    object): an implementation that writes its destination before it has read all its sources shows only here"""
+    lo, hi = elem_range(ring, p)
+    u = unit_operand(rng, ring, p)
+    vals = [[hi, hi, hi], [hi, lo, 1 if hi >= 1 else 0], [u, hi, lo]] + [operands(rng, ring, p, 3) for _ in range(n_rand)]
+    for t in vals:
+        a, b, c = t
+        for op in ("add", "sub", "mul"):
+            for al in ALIAS3:
+                cases.append((ring, p, op + ":" + al, [a, a] if al in ("ab", "rab") else [a, b]))
+        for op in ("axpy", "axmy", "maxpy"):
+            for al in ALIAS4:
+                cases.append((ring, p, op + ":" + al, [a, a, c] if al == "ab" else [a, b, c]))
+        for op in ("addin", "subin", "mulin"):
+            cases.append((ring, p, op + ":rb", [a, a]))
+        for op in ("axpyin", "axmyin", "maxpyin"):
+            cases.append((ring, p, op + ":ra", [a, b, a]))      # r = r*x + r  (args: a x r)
+            cases.append((ring, p, op + ":rb", [a, b, b]))      # r = a*r + r
+        cases.append((ring, p, "neg:ra", [a]))
+        cases.append((ring, p, "reduce2:ra", [reduce_operand(ring, p, a)]))
+    for al in ALIAS3:
+        cases.append((ring, p, "div:" + al, [u, u] if al in ("ab", "rab") else [operands(rng, ring, p, 1)[0], u]))
+    cases.append((ring, p, "divin:rb", [u, u]))
+    cases.append((ring, p, "inv:ra", [u]))
 
 
 PRECOMP_OPS = ("mulpp", "mulpb", "mulpb2")
@@ -346,6 +403,64 @@ def gen_precomp_16bit(rng, ring, lo, hi, quick, cases, n):
         ms = sorted(ms)
     for m in ms:
         precomp_grid(rng, ring, m, "mulpp", cases, full=True)
+
+
+def gen_extended_directed(rng, ring, lo, hi, cases, n):
+    """ModularExtended<float|double>: the quotient estimate floor(fl(fl(a*b)*fl(1/p))) is off by one only for large moduli
+    (a*b/p ~ 2^40 and more for double) when a*b lies within a few units of a multiple of p; both correction steps of mul
+    (r >= p, r < 0) are reached on EVERY run: n pairs with a*b = -s resp. +s (mod p), s in {1,2,3,small}, a and b large, at the
+    maximum, at 2^k - c for the top bit sizes and at random moduli of the top two bit sizes; the same for reduce(x), x = k*p -+ s
+    with the largest quotients the element type represents."""
+    kb = hi.bit_length()
+    ms = [hi, hi - 1, prevprime(hi)] + [(1 << k) - c for k in range(kb - 3, kb + 1) for c in (1, 3, 27, 59)] \
+        + [rng.range(1 << (kb - 2), hi) for _ in range(6)]
+    ms = [m for m in dict.fromkeys(ms) if lo <= m <= hi and m >= 5]
+    for j in range(n):
+        p = ms[j % len(ms)]
+        for _ in range(60):
+            a = rng.range(p - p // 4, p - 1)
+            if math.gcd(a, p) == 1:
+                break
+        else:
+            continue
+        s0 = rng.choice([1, 1, 2, 3, rng.range(1, 1 + p // (1 << 20))])
+        sg = -1 if j % 3 else 1
+        b0 = rng.range(p // 2, p - 1)                       # b near b0 with a*b = sg*s0 + (multiple of p): shift b0 by the residue
+        b = (sg * s0 * pow(a, -1, p)) % p
+        if b < p // 8:                                      # keep both operands large: retry with another small residue
+            b = (sg * (s0 + 1) * pow(a, -1, p)) % p
+        for op in ("mul", "mulin"):
+            cases.append((ring, p, op, [a, b]))
+        cases.append((ring, p, "axpy", [a, b, rng.range(0, p - 1)]))
+        cases.append((ring, p, "axpyin", [a, b, 0]))
+        cases.append((ring, p, "maxpyin", [a, b, 0]))
+        cases.append((ring, p, "axmy", [a, b, 0]))
+        del b0
+    # reduce: the largest quotients
+    lim = 1 << (24 if ring == "ef" else 53)
+    for p in [2, 3, 5, 7, 255, 257, 65537, 1000003, hi, hi // 3] + [rng.range(lo, min(hi, 1 << rng.range(2, kb))) for _ in range(6)]:
+        if not (lo <= p <= hi):
+            continue
+        for k in (lim // p, lim // p - 1, lim // (2 * p), rng.range(1, max(1, lim // p))):
+            for d in (0, 1, -1, 2, -2):
+                x = k * p + d
+                for y in (x, -x):
+                    if -lim <= y <= lim and rn_int(y, 24 if ring == "ef" else 53) == y:
+                        cases.append((ring, p, "reduce1", [y]))
+                        cases.append((ring, p, "reduce2", [y]))
+
+
+def rn_int(z, prec):
+    """z if the integer z is representable with prec significant bits, else the nearest representable (ties to even)"""
+    n = abs(z).bit_length()
+    if n <= prec:
+        return z
+    sh = n - prec
+    q, r = divmod(abs(z), 1 << sh)
+    h = 1 << (sh - 1)
+    if r > h or (r == h and q & 1):
+        q += 1
+    return (q << sh) * (1 if z >= 0 else -1)
 
 
 def gen_cases(rng, ring, p, per, cases):
@@ -463,6 +578,125 @@ _orig_load_known = vf.load_known
 vf.load_known = load_known_with_fragment
 
 
+# ---------------------------------------------------------------- compile configurations and preprocessor-selected branches
+# (name, extra flags appended to vf.BASE_FLAGS, translation units built in quick, in thorough, rings driven (None = all of the
+#  unit), what it is)
+CONFIGS = [
+    ("native", [], (1, 2, 3, 4), (1, 2, 3, 4), None,
+     "the flags the repository's own tests use (-O2 -march=native): FMA when the CPU has it"),
+    ("nofma", ["-mno-fma", "-mno-fma4", "-mno-avx512f"], (3,), (1, 2, 3, 4), None,
+     "-march=native with the fused multiply-add instruction sets switched off (FMA3, FMA4, AVX-512F): the error-free product by "
+     "Veltkamp/Dekker splitting, vectorised code generation otherwise as in the tests"),
+    ("generic", ["-march=x86-64", "-mtune=generic"], (3, 4), (1, 2, 3, 4), None,
+     "no -march (plain g++ -O2, SSE2 arithmetic, no FMA): the documented stand-alone compile line"),
+    ("x87", ["-march=x86-64", "-mfpmath=387"], (3,), (3,), ("ef", "ed"),
+     "x87 arithmetic (__SSE_MATH__ undefined): the #else fallback branches of ModularExtended (only these rings are driven: "
+     "nothing else in the anchor files depends on it and 80-bit intermediates are outside the models)"),
+    ("debug", ["-D__GIVARO_DEBUG"], (3, 4), (1, 2, 3, 4), None,
+     "__GIVARO_DEBUG: the diagnostic branches (division-by-zero throws) compiled in"),
+]
+ANCHOR_DIR = "src/kernel/ring"
+ANCHOR_FILES = ["modular-implem.h", "modular-integral.inl", "modular-floating.inl", "modular-balanced-int32.inl",
+                "modular-balanced-int64.inl", "modular-balanced-float.inl", "modular-balanced-double.inl", "modular-extended.h",
+                "modular-extended.inl", "modular-integer.inl", "modular-ruint.inl", "modular-inttype.inl", "modular-log16.inl",
+                "modular-general.inl", "modular-mulprecomp.inl",
+                # the class definitions next to them (constructors, operator=, maxCardinality, cached members)
+                "modular-integral.h", "modular-floating.h", "modular-balanced-int32.h", "modular-balanced-int64.h",
+                "modular-balanced-float.h", "modular-balanced-double.h", "modular-integer.h", "modular-ruint.h", "modular-inttype.h",
+                "modular-log16.h", "modular-general.h", "modular-defines.h", "modular-balanced.h", "modular.h"]
+
+
+def _strip_comment(t):
+    t = re.sub(r"/\*.*?\*/", " ", t)
+    t = re.sub(r"//.*$", "", t)
+    return t.strip()
+
+
+def pp_chains():
+    """every preprocessor conditional (#if/#ifdef/#ifndef ... #elif ... #else ... #endif) of the anchor files of /repo's CURRENT
+    sources, except include guards: [{file, line, dirs: [(kind, condition, line)], bodies: [text], func}]"""
+    chains = []
+    for rel in ANCHOR_FILES:
+        path = os.path.join(vf.REPO, ANCHOR_DIR, rel)
+        try:
+            lines = open(path, errors="replace").read().splitlines()
+        except OSError:
+            continue
+        stack = []
+        for i, l in enumerate(lines):
+            m = re.match(r"\s*#\s*(ifdef|ifndef|if|elif|else|endif)\b(.*)$", l)
+            if not m:
+                continue
+            kind, rest = m.group(1), _strip_comment(m.group(2))
+            if kind in ("if", "ifdef", "ifndef"):
+                nxt = next((x for x in lines[i + 1:i + 4] if x.strip()), "")
+                guard = kind == "ifndef" and re.match(r"\s*#\s*define\s+" + re.escape(rest) + r"\b", nxt) is not None
+                stack.append({"file": rel, "line": i + 1, "dirs": [(kind, rest, i)], "guard": guard})
+            elif stack and kind in ("elif", "else"):
+                stack[-1]["dirs"].append((kind, rest, i))
+            elif stack:
+                c = stack.pop()
+                if c["guard"]:
+                    continue
+                ends = [d[2] for d in c["dirs"][1:]] + [i]
+                c["bodies"] = ["\n".join(lines[d[2] + 1:e]) for d, e in zip(c["dirs"], ends)]
+                # the function the conditional sits in (nearest preceding definition header of a ring member)
+                c["func"] = ""
+                for j in range(c["dirs"][0][2], max(-1, c["dirs"][0][2] - 40), -1):
+                    mm = re.search(r"(Modular\w*<[^>]*>)\s*::\s*(\w+)\s*(\(|$)", lines[j])
+                    if mm:
+                        c["func"] = re.sub(r"\s+", "", mm.group(1)) + "::" + mm.group(2)
+                        break
+                c["dirs"] = [(k, r, ln + 1) for k, r, ln in c["dirs"]]
+                chains.append(c)
+    chains.sort(key=lambda c: (c["file"], c["line"]))
+    return chains
+
+
+def _diagnostic_only(body):
+    """a branch that holds no arithmetic: empty, or only assert(...) / throw of a diagnostic"""
+    t = re.sub(r"/\*.*?\*/", " ", body, flags=re.S)
+    t = "\n".join(re.sub(r"//.*$", "", x) for x in t.splitlines())
+    t = re.sub(r"assert\s*\((?:[^()]|\([^()]*\))*\)\s*;", "", t)
+    return t.strip() == ""
+
+
+def write_ppgen(chains):
+    """c03_ppgen.h: the conditionals copied verbatim around one print statement each, so that the harness translation unit
+    (same flags, after the givaro headers) reports the branch the compiler selects; plus the state of every macro they name.
+    Returns the include directory (inside the build cache, named after the content)."""
+    out = ["// GENERATED by checks/C03.py from the preprocessor conditionals of /repo's anchor files; do not edit",
+           "static void c03_ppinfo(std::ostream& o) {"]
+    macros = []
+    for k, c in enumerate(chains):
+        out.append("// %s:%d %s" % (c["file"], c["line"], c["func"]))
+        for j, (kind, cond, ln) in enumerate(c["dirs"]):
+            out.append("#%s %s" % (kind, cond))
+            out.append('    o << "c%d=%d ";' % (k, j))
+            for w in re.findall(r"[A-Za-z_]\w*", cond):
+                if w != "defined" and w not in macros:
+                    macros.append(w)
+        if c["dirs"][-1][0] != "else":
+            out.append("#else")
+            out.append('    o << "c%d=%d ";' % (k, len(c["dirs"])))
+        out.append("#endif")
+    for w in macros + ["__FMA__", "__SSE2__", "__SSE4_1__", "__AVX2__", "__SIZEOF_INT128__", "__x86_64__", "__GIVARO_SIZEOF_LONG",
+                       "__FP_FAST_FMA", "__FP_FAST_FMAF", "__FLT_EVAL_METHOD__"]:
+        if w in ("defined",):
+            continue
+        out.append("#ifdef %s" % w)
+        out.append('    o << "%s=1 ";' % w)
+        out.append("#else")
+        out.append('    o << "%s=0 ";' % w)
+        out.append("#endif")
+    out.append("}")
+    txt = "\n".join(out) + "\n"
+    import hashlib
+    d = vf.mkdir(os.path.join(vf.CACHE, "c03pp-" + hashlib.sha256(txt.encode()).hexdigest()[:16]))
+    vf.write_if_changed(os.path.join(d, "c03_ppgen.h"), txt)
+    return d
+
+
 def ring_part(ring):
     """which translation unit of harness/c03_modular.C (-DC03_PART=n) registers the ring"""
     r = ring.split("@")[0]
@@ -473,25 +707,40 @@ def ring_part(ring):
     return 4
 
 
-def build_harness_parts():
-    """the four translation units, compiled concurrently (each is cached by the hash of /repo's sources and its flags)"""
+def build_harness_parts(quick=True, ppdir=None):
+    """every translation unit (-DC03_PART=1..4) in every configuration that drives it, compiled concurrently (each binary is
+    cached by the hash of /repo's sources, the harness and its flags).  Returns ({config: {part: binary}}, log, failed) --
+    the native configuration is required; another configuration that does not compile is reported by the caller."""
     import threading
     res = {}
     lib, l = vf.build_repo_lib()          # once, before the threads (they share its cache directory)
     if lib is None:
-        return None, "library build failed:\n" + l
+        return None, "library build failed:\n" + l, []
+    jobs = [(name, k) for name, flags, pq, pt, only, what in CONFIGS for k in (pq if quick else pt)]
+    flags_of = {name: flags for name, flags, pq, pt, only, what in CONFIGS}
+    sem = threading.Semaphore(8)
 
-    def work(k):
-        res[k] = vf.build_harness("c03_modular.C", extra_flags=["-DC03_PART=%d" % k], name="c03_modular_p%d" % k)
-    ths = [threading.Thread(target=work, args=(k,)) for k in (1, 2, 3, 4)]
+    def work(name, k):
+        with sem:
+            fl = ["-DC03_PART=%d" % k] + list(flags_of[name])
+            if ppdir:
+                fl += ["-DC03_HAVE_PPGEN", "-I" + ppdir]
+            res[(name, k)] = vf.build_harness("c03_modular.C", extra_flags=fl, timeout=1500,
+                                              name="c03_modular_p%d%s" % (k, "" if name == "native" else "_" + name))
+    ths = [threading.Thread(target=work, args=j) for j in jobs]
     for t in ths:
         t.start()
     for t in ths:
         t.join()
-    logs = "\n".join(res[k][1] for k in res if res[k][0] is None)
-    if any(res[k][0] is None for k in res):
-        return None, logs
-    return {k: res[k][0] for k in res}, ""
+    bad = [j for j in jobs if res[j][0] is None]
+    logs = "\n".join("[%s part %d]\n%s" % (j[0], j[1], res[j][1][-1500:]) for j in bad)
+    if any(j[0] == "native" for j in bad):
+        return None, logs, bad
+    out = {}
+    for (name, k) in jobs:
+        if not any(b[0] == name for b in bad):
+            out.setdefault(name, {})[k] = res[(name, k)][0]
+    return out, logs, bad
 
 
 def run_impl(parts, cases_lines, rings, timeout=1500):
@@ -552,25 +801,92 @@ def run_parallel(binary, lines, timeout=1500, nproc=12):
     return rc, out, "".join(r[2] for r in res)
 
 
+def run_one(binary, text, timeout=1500):
+    return vf.run_lines(binary, text, timeout=timeout)
+
+
 def main(tier, replay=None):
     chk = vf.Check("C03", tier, "proof")
     rng = vf.Rng(chk.seed)
+    quick = tier == "quick"
     chk.cov["trusted_base"] = [
         "Coq 8.16.1 kernel + vm_compute (no native_compute); all theorems closed under the global context",
         "extraction: ExtrOcamlBasic only; Z/positive/nat kept as extracted inductives; OCaml 4.13.1; zarith only for text I/O",
         "Model.v's C integer semantics (LP64, int = 32 bit, integer promotion, two's-complement conversions, signed overflow as wrap) "
-        "and ModelF.v's float layer (round to nearest even to 24/53 bits on integers/dyadics, exponent range not modelled, "
-        "no FP contraction); validated by the correspondence run",
-        "the floating-point quotient estimates of ModularBalanced<int32|int64> / ModularExtended and every operation of the "
-        "balanced, extended, Integer, Log16 and rint rings are correspondence/oracle-tested, not proved (see level_claimed)",
-        "harness/c03_modular.C, checks/C03.py (case generator, python big-integer oracle)",
-        "g++ / x86-64 (FMA path of ModularExtended) for the implementation side",
+        "and ModelF.v/ModelDK.v's float layer (round to nearest even to 24/53 bits on integers/dyadics, exponent range not modelled, "
+        "no FP contraction, no x87 excess precision); validated by the correspondence run in every compile configuration",
+        "Log16, rint<7> and the RecInt/GMP based inverses of the big rings are oracle-tested, not modelled (see level_claimed)",
+        "harness/c03_modular.C, checks/C03.py (case generator, python big-integer oracle, preprocessor-conditional scanner)",
+        "g++ / x86-64 for the implementation side: the configurations listed under 'configurations' are the ones this compiler "
+        "and CPU can produce and run",
     ]
-    himpl, l2 = build_harness_parts()
-    if himpl is None:
+    # 0. every preprocessor conditional of the anchor files, from the current sources
+    chains = pp_chains()
+    ppdir = write_ppgen(chains)
+    built, l2, bad = build_harness_parts(quick, ppdir)
+    if built is None:
         chk.broke("implementation harness does not compile against /repo", l2)
         return chk.finish()
-    # 0. the advertised bounds, from the implementation
+    himpl = built["native"]
+    inconclusive = []
+    for name, k in bad:
+        inconclusive.append("configuration %s (part %d) did not compile" % (name, k))
+    if bad:
+        # a configuration other than the repository's own that this compiler cannot build is recorded, it is not a verdict
+        chk.cov["configurations_not_built"] = {"%s/part%d" % b: l2[-1500:] for b in bad}
+    # which branch of every conditional each configuration compiled (printed by the compiled harness itself)
+    cfg_ev = {}
+    selected = {}            # config -> {chain index: branch index}
+    for name, flags, pq, pt, only, what in CONFIGS:
+        if name not in built:
+            continue
+        k0 = sorted(built[name])[0]
+        rc, out, err = run_one(built[name][k0], "ppinfo 0 x\n", timeout=600)
+        sel, macros = {}, {}
+        if rc == 0 and out:
+            for tok in out[0].split():
+                a, _, b = tok.partition("=")
+                if re.match(r"c\d+$", a):
+                    sel[int(a[1:])] = int(b)
+                else:
+                    macros[a] = int(b)
+        else:
+            inconclusive.append("configuration %s: ppinfo failed (rc=%s)" % (name, rc))
+        selected[name] = sel
+        cfg_ev[name] = {"flags": " ".join(vf.BASE_FLAGS + list(flags)), "what": what, "translation_units": sorted(built[name]),
+                        "rings_driven": list(only) if only else "all rings of these units",
+                        "macros": macros,
+                        "branch_compiled": {"%s:%d %s" % (chains[k]["file"], chains[k]["line"], chains[k]["func"]):
+                                            ("#%s %s" % tuple(chains[k]["dirs"][j][:2]) if j < len(chains[k]["dirs"]) else "(no branch: condition false)")
+                                            for k, j in sorted(sel.items()) if k < len(chains)}}
+    chk.cov["configurations"] = cfg_ev
+    # every arithmetic branch of every conditional must be compiled AND driven by some configuration
+    uncovered = []
+    for k, c in enumerate(chains):
+        for j, body in enumerate(c["bodies"]):
+            if _diagnostic_only(body):
+                continue
+            if not any(selected[n].get(k) == j for n in selected):
+                uncovered.append("%s:%d %s  #%s %s" % (c["file"], c["dirs"][j][2], c["func"], c["dirs"][j][0], c["dirs"][j][1]))
+    chk.cov["preprocessor_conditionals_in_anchor_files"] = len(chains)
+    chk.cov["branches_not_compiled_in_any_configuration"] = uncovered     # recorded: cannot be produced on this compiler/CPU
+    # the branch of ModularExtended<float|double>::mul / ::reduce per configuration -> which model is the counterpart
+    exbr = {}
+    for name in selected:
+        d = {}
+        for ring, ty in (("ef", "float"), ("ed", "double")):
+            br = []
+            for fn in ("mul", "reduce"):
+                ks = [k for k, c in enumerate(chains) if c["file"] == "modular-extended.inl" and c["func"] == "ModularExtended<%s>::%s" % (ty, fn)
+                      and not all(_diagnostic_only(b) for b in c["bodies"])]
+                br.append(selected[name].get(ks[0]) if len(ks) == 1 else None)
+            d[ring] = tuple(br)
+        exbr[name] = d
+    if any(None in v for d in exbr.values() for v in d.values()):
+        chk.broke("modular-extended.inl no longer has exactly one branch selection per ModularExtended<T>::mul / ::reduce: "
+                  "the models (ex_*, dk_*, fb_*) cannot be matched to the compiled code", json.dumps({n: {r: list(v) for r, v in d.items()} for n, d in exbr.items()}))
+        return chk.finish()
+    # 0b. the advertised bounds, from the implementation
     rc, out, err = run_impl(himpl, ["%s 0 info\n" % r for r in ALL_RINGS], ALL_RINGS)
     if rc != 0 or len(out) != len(ALL_RINGS):
         chk.broke("implementation harness failed on info", err)
@@ -581,6 +897,10 @@ def main(tier, replay=None):
         info[r] = (int(t[0]), int(t[1]))
     chk.cov["advertised_bounds"] = {r: list(v) for r, v in info.items()}
     write_params(info)
+    # 0c. does ModularBalanced<T>::neg normalise (frag/C03.fix-1 applied)?  asked of the implementation: neg(2) modulo 4
+    rc, out, err = run_impl(himpl, ["%s 4 neg 2\n" % r for r in BAL_RINGS], BAL_RINGS)
+    negfix = {r: (rc == 0 and len(out) == len(BAL_RINGS) and out[i].strip() == "2") for i, r in enumerate(BAL_RINGS)}
+    chk.cov["balanced_neg_normalises"] = negfix
     # 1. proofs
     import time as _t
     _t0 = _t.time()
@@ -592,8 +912,8 @@ def main(tier, replay=None):
     if drv is None:
         chk.broke("extracted model driver does not build", l1)
     # 3. cases
-    quick = tier == "quick"
     cases = []
+    replay_cfg = None
     if replay:
         rp = json.load(open(replay))
         for f in rp.get("failing_inputs", []):
@@ -628,10 +948,19 @@ def main(tier, replay=None):
                 ms = sorted({prevprime(m) for m in ms if m >= 2} | {2, 3, 5, 7, prevprime(hi)})
             for p in ms:
                 gen_cases(rng, ring, p, per, cases)
+            top = [m for m in ms if m == hi][:1] or [ms[-1]]
+            if ring in EXT_RINGS:
+                gen_extended_directed(rng, ring, lo, hi, cases, 24 if quick else 200)
             # every way of obtaining the ring object, on a few moduli of each ring (quick: 4, thorough: 16)
             sel = [ms[-1], ms[0]] + [rng.choice(ms) for _ in range(2 if quick else 14)]
-            for p in ([m for m in ms if m == hi][:1] + sel):
-                gen_obtained(rng, ring, p, cases, 1 if quick else 3)
+            for p in (top + sel):
+                gen_obtained(rng, ring, p, cases, 1 if quick else 3, OBTAIN_MAIN)
+            for p in (top + [ms[0]] + ([] if quick else [rng.choice(ms) for _ in range(4)])):
+                gen_obtained(rng, ring, p, cases, 1, [m for m in OBTAIN_MODES if m not in OBTAIN_MAIN])
+            # every alias pattern of every operation: maximum, minimum, two (thorough: ten) further moduli
+            for p in (top + [ms[0]] + [rng.choice(ms) for _ in range(2 if quick else 10)]):
+                gen_alias(rng, ring, p, cases, 1 if quick else 4)
+                cases.append((ring, p, "consts", []))
         for ring in INT_RINGS:
             gen_precomp_directed(rng, ring, info[ring][0], info[ring][1], quick, cases)
         for ring, n in (("u16_u32", 160), ("i16_i32", 60), ("u16_i32", 40), ("i16_u32", 40)):
@@ -646,33 +975,69 @@ def main(tier, replay=None):
                 cases.append((ring, 2, "gcdext", [aa, bb]))
     chk.cov["phase_seconds"]["generate"] = round(_t.time() - _t0, 1); _t0 = _t.time()
     impl_in = ["%s %d %s %s\n" % (r, p, op, " ".join(str(x) for x in a)) for r, p, op, a in cases]
-    rc, iout, ierr = run_impl(himpl, impl_in, [r for r, p, op, a in cases], timeout=1500)
+    case_rings = [r for r, p, op, a in cases]
+    # 3a. the implementation, in every configuration (all of them concurrently)
+    import threading
+    iouts = {}
+
+    def run_cfg(name, only):
+        idx = [i for i, r in enumerate(case_rings) if ring_part(r) in built[name] and (only is None or r.split("@")[0] in only)]
+        parts = dict(himpl)
+        parts.update(built[name])
+        rc, o, e = run_impl(parts, [impl_in[i] for i in idx], [case_rings[i] for i in idx], timeout=1500)
+        iouts[name] = (idx, rc, o, e)
+    ths = [threading.Thread(target=run_cfg, args=(name, only)) for name, flags, pq, pt, only, what in CONFIGS if name in built]
+    for t in ths:
+        t.start()
+    for t in ths:
+        t.join()
+    idx, rc, iout, ierr = iouts["native"]
     if rc != 0 or len(iout) != len(cases):
+        if rc == 124:
+            chk.cov["inconclusive"] = inconclusive + ["implementation harness timed out (machine load); no verdict from the streams"]
+            return chk.finish()
         chk.broke("implementation harness failed (rc=%s, %d/%d lines)" % (rc, len(iout), len(cases)), ierr[-2000:])
         return chk.finish()
-    mlines = [model_line(r.split("@")[0], p, op, a) for r, p, op, a in cases]
-    midx = [i for i, m in enumerate(mlines) if m is not None]
-    mout = {}
-    if drv and midx:
-        rc, mo, merr = run_parallel(drv, [mlines[i] for i in midx], timeout=1500)
-        if rc != 0 or len(mo) != len(midx):
-            chk.broke("model driver failed (rc=%s, %d/%d lines)" % (rc, len(mo), len(midx)), merr[-2000:])
+    # 3b. the extracted model: one line per (case, distinct counterpart).  The counterpart of a case differs between
+    # configurations only for the ModularExtended rings (branch of mul/reduce).
+    mkey = {}                # model line -> output
+    mline = {}               # (config, i) -> model line
+    for name in iouts:
+        for i in iouts[name][0]:
+            ring, p, op, a = cases[i]
+            ml = model_line(ring.split("@")[0], p, op, a, exbr.get(name), negfix)
+            if ml is not None:
+                mline[(name, i)] = ml
+                mkey[ml] = None
+    if drv and mkey:
+        keys = list(mkey)
+        rc, mo, merr = run_parallel(drv, keys, timeout=1500)
+        if rc == 124:
+            inconclusive.append("model driver timed out (machine load): correspondence not evaluated")
+            mkey = {}
+        elif rc != 0 or len(mo) != len(keys):
+            chk.broke("model driver failed (rc=%s, %d/%d lines)" % (rc, len(mo), len(keys)), merr[-2000:])
+            mkey = {}
         else:
-            mout = dict(zip(midx, mo))
+            mkey = dict(zip(keys, mo))
+    else:
+        mkey = {}
     chk.cov["phase_seconds"]["run_impl_and_model"] = round(_t.time() - _t0, 1); _t0 = _t.time()
-    # 4. three-way comparison
-    nbroke = 0
+    # 4. three-way comparison, per configuration
+    nbroke = [0]
     dist = {}
-    for i, (ring, p, op, a) in enumerate(cases):
-        got = iout[i].strip()
+    ncmp = {}
+
+    def compare(name, i, got):
+        ring, p, op, a = cases[i]
         case = {"ring": ring, "p": str(p), "op": op, "args": [str(x) for x in a]}
-        dist_key = "%s/%s" % (ring, op)
-        dist[dist_key] = dist.get(dist_key, 0) + 1
-        chk.count((ring, p, op, tuple(a)), nontrivial=any(abs(x) > 1 for x in a))
-        if i % 4999 == 0:
-            chk.sample({"case": case, "impl": got})
+        if name != "native":
+            case["config"] = name
         full_ring, ring = ring, ring.split("@")[0]        # "<ring>@<how the ring object was obtained>"
-        if op == "gcdext":
+        bop = op.split(":")[0]
+        cfgnote = "" if name == "native" else " [configuration %s: %s]" % (name, " ".join(dict((c[0], c[1]) for c in CONFIGS)[name]))
+        exp = None
+        if bop == "gcdext":
             g = math.gcd(a[0], a[1])
             t = got.split()
             sb, ss = ITY[ring.split("_")[0]]
@@ -681,26 +1046,56 @@ def main(tier, replay=None):
                 ok = int(t[1]) * a[0] + int(t[2]) * a[1] == g
             exp = "d=%d, 0<=u<b, u*a=d (mod b), v=(d-u*a)/b when u*a fits" % g
             if not ok:
-                chk.fail_input("gcdext<%s>" % ring.split("_")[0], "bezout", case, exp, got, "gcdext does not return gcd and Bezout coefficients")
+                chk.fail_input("gcdext<%s>" % ring.split("_")[0], "bezout", case, exp, got, "gcdext does not return gcd and Bezout coefficients" + cfgnote)
         else:
             e = oracle(ring, p, op, a)
             exp = None if e is None else str(e)
             if exp is not None and got != exp:
-                if ring in BAL_RINGS and p % 2 == 0 and op in BAL_NEG_OPS and e == p // 2 and got == str(-(p // 2)):
+                if ring in BAL_RINGS and p % 2 == 0 and bop in BAL_NEG_OPS and e == p // 2 and got == str(-(p // 2)) and not negfix.get(ring):
                     chk.fail_input(KNOWN_BALNEG_SITE, KNOWN_BALNEG_KLASS, case, exp, got,
                                    "ModularBalanced negation of p/2 for even p leaves the canonical range [-(p/2)+1, p/2]")
                 else:
                     chk.fail_input("%s::%s" % (full_ring, op), "p=%d" % p, case, exp, got,
                                    "implementation differs from exact arithmetic mod p"
-                                   + (" (ring object obtained by %s)" % OBTAIN_MODES[full_ring.split("@")[1]] if "@" in full_ring else ""))
-        if i in mout:
-            mg = mout[i].strip()
-            if mg != got and nbroke < 20 and (exp is None or got == exp or op == "gcdext"):   # impl != oracle is already a failing input
-                nbroke += 1
-                chk.broke("correspondence model/implementation differs on %s p=%d %s %s: model=%s impl=%s" % (ring, p, op, a, mg, got))
-            if exp is not None and op != "gcdext" and got == exp and mg != exp and nbroke < 20:
-                nbroke += 1
-                chk.broke("extracted model differs from the specification oracle on %s p=%d %s %s: model=%s spec=%s" % (ring, p, op, a, mg, exp))
+                                   + (" (ring object obtained by %s)" % OBTAIN_MODES[full_ring.split("@")[1]] if "@" in full_ring else "")
+                                   + (" (alias pattern %s)" % op.split(":")[1] if ":" in op else "") + cfgnote)
+        ml = mline.get((name, i))
+        if ml is not None and ml in mkey:
+            ncmp[name] = ncmp.get(name, 0) + 1
+            mg = mkey[ml].strip()
+            if mg != got and nbroke[0] < 20 and (exp is None or got == exp or bop == "gcdext"):   # impl != oracle is already a failing input
+                nbroke[0] += 1
+                chk.broke("correspondence model/implementation differs on %s p=%d %s %s%s: model=%s impl=%s (model line: %s)" % (ring, p, op, a, cfgnote, mg, got, ml))
+            if exp is not None and bop != "gcdext" and got == exp and mg != exp and nbroke[0] < 20:
+                nbroke[0] += 1
+                chk.broke("extracted model differs from the specification oracle on %s p=%d %s %s: model=%s spec=%s (model line: %s)" % (ring, p, op, a, mg, exp, ml))
+
+    for i, (ring, p, op, a) in enumerate(cases):
+        got = iout[i].strip()
+        dist_key = "%s/%s" % (ring.split("@")[0], op)
+        dist[dist_key] = dist.get(dist_key, 0) + 1
+        chk.count((ring, p, op, tuple(a)), nontrivial=any(abs(x) > 1 for x in a))
+        if i % 4999 == 0:
+            chk.sample({"case": {"ring": ring, "p": str(p), "op": op, "args": [str(x) for x in a]}, "impl": got})
+        compare("native", i, got)
+    per_cfg = {"native": len(cases)}
+    for name in iouts:
+        if name == "native":
+            continue
+        idx, rc, o, e = iouts[name]
+        if rc == 124:
+            inconclusive.append("configuration %s: harness timed out (machine load); stream not evaluated" % name)
+            continue
+        if rc != 0 or len(o) != len(idx):
+            chk.broke("implementation harness of configuration %s failed (rc=%s, %d/%d lines)" % (name, rc, len(o), len(idx)), e[-2000:])
+            continue
+        per_cfg[name] = len(idx)
+        for i, l in zip(idx, o):
+            compare(name, i, l.strip())
+    chk.cov["cases_per_configuration"] = per_cfg
+    chk.cov["model_comparisons_per_configuration"] = ncmp
+    if inconclusive:
+        chk.cov["inconclusive"] = inconclusive
     if os.environ.get("C03_DEBUG"):
         import collections
         cc = collections.Counter((f["site"].split("::")[0], f["site"].split("::")[-1]) for f in chk.failing)
@@ -714,20 +1109,29 @@ def main(tier, replay=None):
     chk.cov["rule"] = ("every ring type (50) x moduli {min..min+2, max-2..max, prevprime(max), 2^k, 2^k+-1, sqrt(max)+-1, random} "
                        "(Log16: primes) x every call form x operands {0,1,lo,hi,p/2,p/2+-1,sqrt p,random} incl. the corner triples "
                        "(hi,hi,hi),(hi,hi,0),(lo,lo,hi) and directed pairs with a*b = +-s (mod p), s small, large quotient "
-                       "(boundary of every quotient estimate / correction step); reduce on storage-type extremes; mul_precomp only "
-                       "inside its documented bitsize precondition; non-trivial = some |operand| > 1; distinct = (ring,p,op,operands)")
-    chk.cov["traces_validated_against_impl"] = len(mout)
+                       "(boundary of every quotient estimate / correction step; ModularExtended: 24+ such pairs at the maximum, at "
+                       "2^k-c and at random large moduli on every run); every way of obtaining the ring object (6) and every alias "
+                       "pattern of every operation; constants; reduce on storage-type extremes; mul_precomp only inside its documented "
+                       "bitsize precondition; every stream repeated in every compile configuration (see 'configurations'); "
+                       "non-trivial = some |operand| > 1; distinct = (ring,p,op,operands)")
+    chk.cov["traces_validated_against_impl"] = sum(ncmp.values())
     chk.cov["rings"] = len(ALL_RINGS)
     byring = {}
     bymode = {}
+    byalias = {}
     for ring, p, op, a in cases:
         byring[ring.split("@")[0]] = byring.get(ring.split("@")[0], 0) + 1
         m = ring.split("@")[1] if "@" in ring else "constructor"
         bymode[m] = bymode.get(m, 0) + 1
+        al = op.split(":")[1] if ":" in op else "distinct objects"
+        byalias[al] = byalias.get(al, 0) + 1
     chk.cov["distribution_by_way_of_obtaining_the_ring"] = bymode
+    chk.cov["distribution_by_alias_pattern"] = byalias
     chk.cov["distribution_by_ring"] = byring
     byop = {}
     for ring, p, op, a in cases:
         byop[op] = byop.get(op, 0) + 1
     chk.cov["distribution_by_op"] = byop
+    chk.cov["call_forms"] = {"forms": len(dist), "min_cases_per_form": min(dist.values()) if dist else 0,
+                             "per_ring_and_form": dist if not quick or len(dist) < 4000 else "omitted"}
     return chk.finish()
